@@ -34,6 +34,8 @@ RULE = (
     "(mass centre = centroid) and general (needs the mass table); non-trivial: >= 2 atoms with distinct positions. "
     "distinct = distinct descriptor."
 )
+RULE = RULE + " " + 'moments: every case reassigns points and weights of the same Grid object and checks a second moments() call; centre modes near-prev (previous centre + 1e-6) and same-as-prev.'
+
 ASSUMPTIONS = [
     "moment definitions as in the property statement: pure = regular real solid harmonic R_lm(r-R); pure-radial = |r-R|^n R_lm(r-R) "
     "(the docstring of Grid.moments prints |r-R|^(n+1) S_lm for pure-radial, which matches neither the code nor the property for l != 1)",
